@@ -27,9 +27,156 @@ fn si(a: &[&str]) -> String {
     }
 }
 
+// ------------------------------------------------------------------ rates
+
+use quantities::Rate;
+
+fn rate_fields<TQ: Quantity, PQ: Quantity>(r: &Rate<TQ, PQ>) -> String {
+    format!(
+        "{} {} {} {}",
+        enc(r.term_amount()),
+        ix_of(r.term_unit()),
+        enc(r.per_unit_multiple()),
+        ix_of(r.per_unit())
+    )
+}
+
+/// args: ta tu pm pu op ...
+/// `q_mul_rate`, `q_div_rate`, `q_mul_recip`: the generated operators, where the types have them
+/// (the dimensionless `AmountT` has none of the generated `Mul<Rate>` / `Div<Rate>` impls).
+pub fn rate_ops<TQ, PQ>(
+    a: &[&str],
+    q_mul_rate: Option<fn(PQ, Rate<TQ, PQ>) -> TQ>,
+    q_div_rate: Option<fn(TQ, Rate<TQ, PQ>) -> PQ>,
+    q_mul_recip: Option<fn(TQ, Rate<PQ, TQ>) -> PQ>,
+) -> String
+where
+    TQ: Quantity + Div<TQ, Output = AmountT>,
+    PQ: Quantity + Div<PQ, Output = AmountT>,
+{
+    let ta = dec_amt(a[0]);
+    let tu = unit_at::<TQ::UnitType>(a[1].parse().unwrap());
+    let pm = dec_amt(a[2]);
+    let pu = unit_at::<PQ::UnitType>(a[3].parse().unwrap());
+    let rate = Rate::<TQ, PQ>::new(ta, tu, pm, pu);
+    match a[4] {
+        "acc" => {
+            let rec = rate.reciprocal();
+            let rec2 = rec.reciprocal();
+            let fq = Rate::<TQ, PQ>::from_qty_vals(TQ::new(ta, tu), PQ::new(pm, pu));
+            format!(
+                "{}|{}|{}|{}",
+                rate_fields(&rate),
+                rate_fields(&rec),
+                rate_fields(&rec2),
+                rate_fields(&fq)
+            )
+        }
+        "mulq" => {
+            let q = PQ::new(dec_amt(a[6]), unit_at::<PQ::UnitType>(a[5].parse().unwrap()));
+            let r1 = guard(|| qstr(rate * q));
+            let r2 = match q_mul_rate {
+                Some(f) => guard(|| qstr(f(q, rate))),
+                None => "na".into(),
+            };
+            let r3 = match q_div_rate {
+                Some(f) => guard(|| qstr(f(rate * q, rate))),
+                None => "na".into(),
+            };
+            format!("{}|{}|{}", r1, r2, r3)
+        }
+        "divq" => {
+            let q = TQ::new(dec_amt(a[6]), unit_at::<TQ::UnitType>(a[5].parse().unwrap()));
+            let r1 = match q_div_rate {
+                Some(f) => guard(|| qstr(f(q, rate))),
+                None => "na".into(),
+            };
+            let r2 = match q_mul_recip {
+                Some(f) => guard(|| qstr(f(q, rate.reciprocal()))),
+                None => "na".into(),
+            };
+            let r3 = match q_div_rate {
+                Some(f) => guard(|| qstr(rate * f(q, rate))),
+                None => "na".into(),
+            };
+            format!("{}|{}|{}", r1, r2, r3)
+        }
+        "fmt" => guard(|| format!("h{}", hex(&format!("{}", rate)))),
+        _ => "bad-op".into(),
+    }
+}
+
+// ------------------------------------------------------------------ conversion tables
+
+use quantities::{ConversionTable, Converter};
+
+/// rows: `from:to:factor:offset;...` (or `-` for the empty table)
+pub fn tconv_ops<Q: Quantity>(a: &[&str]) -> String
+where
+    Q::UnitType: std::fmt::Debug,
+{
+    let rows: Vec<(Q::UnitType, Q::UnitType, AmountT, AmountT)> = if a[0] == "-" {
+        vec![]
+    } else {
+        a[0].split(';')
+            .map(|r| {
+                let f: Vec<&str> = r.split(':').collect();
+                (
+                    unit_at::<Q::UnitType>(f[0].parse().unwrap()),
+                    unit_at::<Q::UnitType>(f[1].parse().unwrap()),
+                    dec_amt(f[2]),
+                    dec_amt(f[3]),
+                )
+            })
+            .collect()
+    };
+    let q = Q::new(dec_amt(a[2]), unit_at::<Q::UnitType>(a[1].parse().unwrap()));
+    let to = unit_at::<Q::UnitType>(a[3].parse().unwrap());
+    macro_rules! with_n {
+        ($($n:literal),*) => {
+            match rows.len() {
+                $($n => {
+                    let arr: [(Q::UnitType, Q::UnitType, AmountT, AmountT); $n] =
+                        rows.clone().try_into().expect("len");
+                    let t = ConversionTable::<Q, $n> { mappings: arr };
+                    guard(|| opt_q(t.convert(&q, to)))
+                })*
+                _ => "bad-op".to_string(),
+            }
+        };
+    }
+    with_n!(0, 1, 2, 3, 4, 5, 6, 7, 8, 9, 10, 11, 12)
+}
+
+pub fn opt_q<Q: Quantity>(r: Option<Q>) -> String {
+    match r {
+        Some(q) => format!("some {}", qstr(q)),
+        None => "none".into(),
+    }
+}
+
+fn temp(a: &[&str]) -> String {
+    use quantities::temperature::{Temperature, TEMPERATURE_CONVERTER};
+    match a[0] {
+        "rows" => TEMPERATURE_CONVERTER
+            .mappings
+            .iter()
+            .map(|(f, t, fa, of)| format!("{}:{}:{}:{}", ix_of(*f), ix_of(*t), enc(*fa), enc(*of)))
+            .collect::<Vec<_>>()
+            .join(";"),
+        "conv" => {
+            let q = Temperature::new(dec_amt(a[2]), unit_at(a[1].parse().unwrap()));
+            let to = unit_at(a[3].parse().unwrap());
+            guard(|| opt_q(TEMPERATURE_CONVERTER.convert(&q, to)))
+        }
+        _ => "bad-op".into(),
+    }
+}
+
 pub fn dispatch(op: &str, a: &[&str]) -> Option<String> {
     match op {
         "si" => Some(si(a)),
+        "temp" => Some(temp(a)),
         _ => None,
     }
 }
